@@ -66,6 +66,33 @@ WARM = 0   # bit mask: the operands built next are looked at first (1 .s, 2 str(
            # 32: the recorded call is the second identical call on the same operand objects (fmtlib._again);
            # 64: the same call was cut short by a foreign exception at some line first (fmtlib._cut_short);
            # 128: operands are instances of a FmtStr subclass with a constructor of its own
+           # 512: the recorded call is spelled with keyword arguments, as the function's signature publishes them (call())
+           # 256: operands are DERIVED from another value that was already rendered / measured: the same runs with one
+           #      attribute different (then set right with copy_with_new_atts) or one more (then new_with_atts_removed)
+
+
+def call(fn, *args):
+    """fn(*args) - or, under WARM bit 512, the same call spelled with keywords: every argument whose parameter the
+    function's own published signature (inspect.signature) offers by name is passed by that name.  The names are read
+    from the tree under test, so renaming a parameter or making it positional-only changes what this spells, not
+    whether it works; a function that rejects a spelling its signature offers is an observation."""
+    if not WARM & 512:
+        return fn(*args)
+    import inspect
+    try:
+        params = list(inspect.signature(fn).parameters.values())
+    except (TypeError, ValueError):
+        return fn(*args)
+    pos, kw = [], {}
+    for k, a in enumerate(args):
+        p = params[k] if k < len(params) else None
+        if p is not None and p.kind == inspect.Parameter.POSITIONAL_OR_KEYWORD and not pos[k:]:
+            kw[p.name] = a
+        else:
+            if kw:                      # a positional argument cannot follow keyword ones: fall back to the plain call
+                return fn(*args)
+            pos.append(a)
+    return fn(*pos, **kw)
 
 
 def warm(f, mask):
@@ -112,11 +139,38 @@ def _subclass():
     return _SUB[0]
 
 
+def _derived(runs):
+    """the value with these runs, obtained from a value that was on a screen before: same runs, one attribute other /
+    one attribute more, rendered, hashed and measured, then re-formatted into the wanted value"""
+    from curtsies.formatstring import FmtStr, Chunk
+    ok = lambda i, v: (1 <= v <= 8) if i < 2 else v in (1, 2)          # noqa: E731
+    common = [i for i in range(8) if all(a[i] == runs[0][1][i] for _, a in runs) and ok(i, runs[0][1][i])]
+    absent = [i for i in range(8) if all(a[i] == 0 for _, a in runs)]
+    pick = sum(len(t) for t, _ in runs) + len(runs)
+    if common and (pick % 2 == 0 or not absent):
+        i = common[pick % len(common)]
+        v = runs[0][1][i]
+        other = (v % 8) + 1 if i < 2 else 3 - v
+        base = FmtStr(*(Chunk(dec_text(t), dec_atts([other if j == i else c for j, c in enumerate(a)])) for t, a in runs))
+        warm(base, 15)
+        return base.copy_with_new_atts(**dec_atts([v if j == i else 0 for j in range(8)]))
+    if absent:
+        i = absent[pick % len(absent)]
+        base = FmtStr(*(Chunk(dec_text(t), dec_atts([(3 if i < 2 else 2) if j == i else c for j, c in enumerate(a)])) for t, a in runs))
+        warm(base, 15)
+        return base.new_with_atts_removed(ATT_ORDER[i])
+    return None
+
+
 def build_fmtstr(runs):
     """runs -> real FmtStr built from Chunks (used by enumerations; the public constructors are
     exercised separately by C14/C01 spellings)."""
     from curtsies.formatstring import FmtStr, Chunk
     cls = _subclass() if WARM & 128 else (lambda *chunks: FmtStr(*chunks))
+    if WARM & 256 and not WARM & 128 and runs:
+        d = _derived(runs)
+        if d is not None:
+            return warm(d, WARM) if WARM & 15 else d
     if WARM & 16:
         made = {}
         f = cls(*(made.setdefault(json.dumps([t, a]), Chunk(dec_text(t), dec_atts(a))) for t, a in runs))
